@@ -349,10 +349,10 @@ def can_self_loop(S, j):
                (x["k"] in ("jsq", "lb") and j in x["dests"]) or (x["k"] == "cycle" and j in x["cycle"]):
                 return True
         elif k == "pb":
-            if any(route.count(j) >= 2 for route in rt["routes"]):
+            if any(j in route for route in rt["routes"]):
                 return True
         elif k == "fpb":
-            if any(sum(1 for s in route if j in s) >= 2 for route in rt["routes"]):
+            if any(j in s for route in rt["routes"] for s in route):
                 return True
     return False
 
